@@ -28,12 +28,16 @@ def main():
             tier = args[i + 1]
         if a == '--also':
             also = args[i + 1].split(',')
+    only = []
+    for i, a in enumerate(args):
+        if a == '--only':
+            only.append(args[i + 1])     # restrict the check to these obligation families (recorded in the result)
     repo = '/repo'
     for i, a in enumerate(args):
         if a == '--repo':
             repo = args[i + 1]           # triage in a scratch worktree (VKIT_REPO); the final confirmation uses /repo itself
     envp = ('VKIT_REPO=%s ' % repo) if repo != '/repo' else ''
-    res = {'property': pid, 'patch': patch, 'repo': repo}
+    res = {'property': pid, 'patch': patch, 'repo': repo, 'only': only}
     rc, out = sh('git status --porcelain', cwd=repo)
     if out.strip():
         print(json.dumps({'error': repo + ' not clean', 'status': out}))
@@ -53,7 +57,7 @@ def main():
         res['checks'] = {}
         for c in [pid] + also:
             t0 = time.time()
-            rc, out = sh(envp + './check %s --tier %s' % (c, tier), cwd=os.path.dirname(os.path.dirname(os.path.abspath(__file__))), timeout=7200)
+            rc, out = sh(envp + './check %s --tier %s%s' % (c, tier, ''.join(' --only ' + o for o in only)), cwd=os.path.dirname(os.path.dirname(os.path.abspath(__file__))), timeout=7200)
             viol = [l for l in out.splitlines() if l.startswith('VIOLATION')]
             res['checks'][c] = {'exit': rc, 'violations': len(viol), 'first': viol[:2], 'wall_s': round(time.time() - t0),
                                 'summary': [l for l in out.splitlines() if l.startswith(c + ' ')][:1],
